@@ -123,7 +123,15 @@ func classify(err error) string {
 	return "other:" + msg
 }
 
+// events of compiler.go (other hooked packages share the same hook and are not part of CompileExec)
+var compilerEvents = map[string]bool{"Config": true, "End": true, "Cancel": true, "Create": true, "MainStart": true, "MainWoke": true,
+	"Return": true, "Done": true, "SetBlocked": true, "ReadBlocked": true, "Acquired": true, "Released": true, "Parsed": true,
+	"Loop": true, "LoopDP": true, "Woke": true, "WokeDP": true, "Lookup": true, "Cycle": true}
+
 func (t *tracer) emit(ev string, kv ...any) {
+	if !compilerEvents[ev] {
+		return
+	}
 	t.mu.Lock()
 	defer t.mu.Unlock()
 	if !t.on {
@@ -329,7 +337,7 @@ type controller struct {
 	wake    chan struct{}
 }
 
-var minorGate = map[string]bool{"setblocked": true, "checklookup": true}
+var minorGate = map[string]bool{"setblocked": true, "checklookup": true, "register": true}
 
 func newController() *controller {
 	return &controller{parked: map[string]*arrival{}, exited: map[string]bool{}, created: map[string]bool{}, wake: make(chan struct{}, 1)}
